@@ -107,6 +107,9 @@ def run(ctx, F, cg):
             oks = [(i, line) for i, j, pl, rv, line, exp in b.stmts() if pl[0] == 0 and not pl[1] and rv[0] == "agg" and rv[1].endswith("Result::Ok")]
             through = {c.bb for c in direct} | {c.bb for c in via}
             early = [(i, line) for i, line in oks if not b.must_pass(0, i, through)]
+            if not early and not b.success_passes(0, through):
+                # the success return is not an `Ok(..)` literal (a variable or a tail call): same obligation
+                early = [(0, r.get("line", 0))]
             if early:
                 ctx.violation("R16e", short + "|acknowledged-without-log", where(r, early[0][1]), "%s can return Ok without having appended to the WAL (line %d): the caller acknowledges a write that was neither logged nor stored" % (short, early[0][1]))
             else:
